@@ -212,6 +212,9 @@ func (r *CheckRun) runNative(pkgDir string, jobs []*replayJob) error {
 		b, err := os.ReadFile(of)
 		if err != nil {
 			j.err = "no native output"
+			if runErr != nil {
+				j.err += " (go test: " + strings.ReplaceAll(firstLines(panicLines(outb.String()), 6), "\n", " | ") + ")"
+			}
 			continue
 		}
 		var no nativeOut
@@ -436,4 +439,14 @@ func (r *CheckRun) replayInEngine(w *witnessFile) int {
 	}
 	fmt.Fprintln(os.Stderr, "harness not found:", w.Harness)
 	return 2
+}
+
+// panicLines returns the output from the first panic / fatal error line on.
+func panicLines(out string) string {
+	for _, mark := range []string{"panic:", "fatal error:", "--- FAIL"} {
+		if i := strings.Index(out, mark); i >= 0 {
+			return out[i:]
+		}
+	}
+	return tail(out, 6)
 }
